@@ -122,3 +122,38 @@ func H_C12_endblock() {
 		}
 	}
 }
+
+// C11 (start of a configuration): with two or more configurations of different keyper sets, a
+// configuration becomes started in EndBlock exactly when at least the preceding configuration's
+// threshold of the *preceding* configuration's keypers have reported its activation block.
+func H_C11_start_quorum() {
+	b := vfBounds()
+	b.noFork, b.noCheckTx = true, true
+	app := vfApp(b)
+	nc := len(app.Configs)
+	preStarted := make([]bool, nc)
+	for i, c := range app.Configs {
+		preStarted[i] = c.Started
+	}
+	_ = app.EndBlock(abcitypes.RequestEndBlock{Height: vfI64("height")})
+	for i, c := range app.Configs {
+		j := i - 1
+		if j < 0 {
+			j = 0
+		}
+		var votes uint64
+		for _, k := range app.Configs[j].Keypers {
+			if bs, ok := app.BlocksSeen[k]; ok && bs >= c.ActivationBlockNumber {
+				votes++
+			}
+		}
+		want := preStarted[i] || votes >= app.Configs[j].Threshold
+		vfAssert(c.Started == want, "started-iff-block-seen-quorum-of-the-preceding-configurations-keypers")
+		if c.Started && !preStarted[i] {
+			vfReach("config-started")
+		}
+		if !c.Started {
+			vfReach("not-started")
+		}
+	}
+}
